@@ -178,3 +178,29 @@ Example C19_rerun_after_insert_ok :
   prop_C19 0 unit_params (tree_of_d (fst st)) (snd st) = true
   /\ tsize (tree_of_d (fst st)) = 7%nat.
 Proof. split; vm_compute; reflexivity. Qed.
+
+(* ---------------------------------------------------------------------------------------------
+   reingold_tilford called on a node that is not the root of its tree (Algo/Plot.v `rt_at`:
+   modelled when the start node is the first child of its parent, at any depth; a start node with
+   a left sibling reads attributes of nodes outside its subtree and is outside the model).
+   The coordinates of the subtree are its own fresh layout up to y (counted from the whole tree's
+   max_depth), and satisfy the four clauses. *)
+Theorem C19_subtree_start : forall eps p whole path sub c, 0 <= eps -> params_pos p ->
+  subtree_at whole path = Some sub -> rt_at p whole path = Some c ->
+  prop_C19_but_cousins eps p sub c = true.
+Proof. exact rt_at_but_cousins. Qed.
+Print Assumptions C19_subtree_start.
+
+Example C19_subtree_start_example :
+  let whole := nd [nd [leaf; nd [leaf; leaf]]; nd [leaf]; leaf] in
+  exists c, rt_at unit_params whole [0%nat] = Some c /\ cy c = 2 /\ cx c = (1 # 2)
+            /\ rt_at unit_params whole [1%nat] = None.
+Proof. eexists. repeat split; vm_compute; reflexivity. Qed.
+
+(* ---------------------------------------------------------------------------------------------
+   BinaryNode trees (known finding K5-C19): the faithful model of what the code does on a tree of
+   BinaryNode objects is "raises AttributeError" (Algo/Plot.v reingold_tilford_binary: children
+   always holds the two slots, None for an empty one, and _first_pass recurses into them), so the
+   property has no coordinates to speak about there; check_C19 flags every such case F_PROPFAIL. *)
+Example C19_binary_refuted : forall p t, reingold_tilford_binary p t = Raise AttributeError.
+Proof. reflexivity. Qed.
